@@ -18,7 +18,7 @@ From Coq Require Import List NArith ZArith.
 From Gemato Require Import Py.PyStr Py.PyPath Gen.Tables Gen.Util Model.Entry Model.Text Model.OpenPGP Model.Hash
   Model.FS Model.Verify Model.Loader.
 From Gemato Require Import Exec.Oracles.
-From Gemato Require Import Proofs.VerifyPath Proofs.KeepGoing Proofs.UtilSpec Proofs.DirSpec Proofs.Compat Proofs.OnlyOffending Proofs.WalkComplete Proofs.NoInternal Proofs.ReadSafe Proofs.EntryDict.
+From Gemato Require Import Proofs.VerifyPath Proofs.KeepGoing Proofs.UtilSpec Proofs.DirSpec Proofs.Compat Proofs.OnlyOffending Proofs.WalkComplete Proofs.NoInternal Proofs.ReadSafe Proofs.EntryDict Proofs.WalkTerm Proofs.Once Proofs.Relative Proofs.Exact.
 Import ListNotations.
 Open Scope N_scope.
 
@@ -188,6 +188,21 @@ Theorem C01_every_manifest_entry_is_checked : forall (L : hashlib) decompress pg
                 (pjoin (dirname (pjoin rel (e_path e))) (basename (e_path e))) (Some e') log.
 Proof. exact manifest_entries_checked. Qed.
 Print Assumptions C01_every_manifest_entry_is_checked.
+
+(* ... and against THE entry the merged dictionary records for its path ([lookup ed rel f]: the entry under the file's name in the
+   dictionary of its directory), as a stray file only when it records none: the dictionary is read as it was when the walk started
+   (a directory visit removes only the dictionaries of the directory visited and of directories below it; no relative path is visited
+   twice).  wf_world / nodup_world: directory listings have unique, non-empty, slash-free names; lrel: the loader's Manifests name
+   relative paths (C07_loader_names_relative_paths) *)
+Theorem C01_found_file_is_checked_against_its_entry : forall (L : hashlib) decompress pgp w l path pol lm l' b log,
+  wf_world w -> nodup_world w -> key_ok path -> lrel l ->
+  assert_directory_verifies L decompress pgp w l path pol lm = Ok (l', b, log) ->
+  exists ed, get_file_entry_dict L decompress pgp w l path None true = Ok (l', ed) /\
+    forall dp rel ents f, reach w ed (pjoin rootdir path) path dp rel -> p_scandir w dp = Ok ents ->
+      In f (map fst (filter (fun x => negb (snd x)) ents)) -> visible (l_top l') rel f = true ->
+      presented_at L w (mk_vctx (l_top l') (l_dev l') pol lm) (pjoin dp f) (pjoin rel f) (lookup ed rel f) log.
+Proof. exact found_files_checked_exactly. Qed.
+Print Assumptions C01_found_file_is_checked_against_its_entry.
 
 (* non-vacuity: top-level Manifest 'MANIFEST s/Manifest 9', s/Manifest 'DATA a 1', the files s/a and (listed nowhere) b;
    a keep-going verification of the whole tree returns False having reported exactly b; the directory s is reached *)
